@@ -153,6 +153,8 @@ def check(run, repo, world):
     _check_request_reply(run, repo, world)
     _check_zero_answer(run, repo, world)
     _check_flush(run, repo, world)
+    _check_none_iff_noanswer(run, repo, world, folder, targets)
+    _check_atx_drain(run, repo, world)
 
 
 def _frame_arg_ok(world, modname, fn, a):
@@ -975,3 +977,256 @@ def _check_zero_answer(run, repo, world):
                            "caller is told nothing answered" % (x, x),
                            where(mod, nd))
     run.floor("answer-frame constructions in serial send paths", n, 2)
+
+
+# ---------------------------------------------------------------------------
+def _query_of(w, cv):
+    """True / False / None: what the path knows about `cv` expecting an
+    answer."""
+    for (txt, b) in ((cv + ".response", True), (cv + ".is_query", True),
+                     (cv + ".response is None", False),
+                     (cv + ".response is not None", True),
+                     (cv + ".response == None", False)):
+        for val in (True, False):
+            if ("cond", txt, val) in w:
+                return val == b
+    return None
+
+
+def _check_none_iff_noanswer(run, repo, world, folder, targets):
+    """None is returned exactly for a command that expects no answer: on
+    every path to a normal exit that hands back None (explicitly, through a
+    local that still holds None, or by falling off the end) the path has
+    established that `<command>.response` / `.is_query` is false."""
+    run.rule("R-NONE-IFF-NOANSWER", "a send path that ends with None has "
+             "tested the command as expecting no answer (every path)")
+    from ..cfg import forward_worlds
+    from ..seq import cond_edge_transfer, kill_conds_on_assign, assigned_names
+    hid = _spec("hid.json")
+    n_exits = 0
+    for (cq, mname, cv) in targets:
+        owner, fn = _fn(world, cq, mname)
+        mod = repo.mod(owner.mod)
+        Q = "%s.%s" % (cq, mname)
+        cfg = CFG(fn, may_raise=suspension_may_raise, name=Q)
+
+        def kinds_of(e, w, cv=cv):
+            if e is None or (isinstance(e, ast.Constant) and
+                             e.value is None):
+                return frozenset(["none"])
+            if _is_resp_call(e, cv):
+                return frozenset(["resp"])
+            if isinstance(e, ast.Name):
+                for f in w:
+                    if f[0] == "val" and f[1] == e.id:
+                        return f[2]
+                return frozenset(["other"])
+            if isinstance(e, ast.IfExp):
+                return kinds_of(e.body, w) | kinds_of(e.orelse, w)
+            return frozenset(["other"])
+
+        def transfer(node, w, cv=cv):
+            w = kill_conds_on_assign(node, w)
+            a = node.ast
+            if a is None or node.kind not in ("stmt", "for", "with_enter",
+                                              "except"):
+                return w
+            if node.kind == "stmt" and isinstance(a, ast.Return):
+                return w | {("returned", unparse(a.value) if a.value
+                             is not None else "None",
+                             kinds_of(a.value, w))}
+            names = set()
+            if node.kind == "stmt":
+                names = assigned_names(a)
+            elif node.kind == "for":
+                names = assigned_names(a.target)
+            elif node.kind == "with_enter":
+                for it in a.items:
+                    if it.optional_vars is not None:
+                        names |= assigned_names(it.optional_vars)
+            elif node.kind == "except" and a.name:
+                names = {a.name}
+            if not names:
+                return w
+            new = None
+            if node.kind == "stmt" and isinstance(a, ast.Assign) and len(
+                    a.targets) == 1 and isinstance(a.targets[0], ast.Name):
+                new = ("val", a.targets[0].id, kinds_of(a.value, w))
+            elif node.kind == "stmt" and isinstance(
+                    a, ast.AnnAssign) and isinstance(
+                        a.target, ast.Name) and a.value is not None:
+                new = ("val", a.target.id, kinds_of(a.value, w))
+            w = frozenset(f for f in w if not (
+                f[0] == "val" and f[1] in names))
+            for nm in names:
+                if new is not None and new[1] == nm:
+                    w = w | {new}
+                else:
+                    w = w | {("val", nm, frozenset(["other"]))}
+            return w
+        W = forward_worlds(cfg, transfer, cond_edge_transfer(),
+                           max_worlds=20000)
+        ws = W.at(cfg.exit)
+        if not ws:
+            raise AnalysisError("%s has no normal exit" % Q)
+        codes_all = None
+        if cq.endswith(".hasseb"):
+            codes_all = set(hid["hasseb"]["status"])
+        for w in ws:
+            ret = [f for f in w if f[0] == "returned"]
+            kinds = ret[0][2] if ret else frozenset(["none"])
+            text = ret[0][1] if ret else "(falls off the end)"
+            n_exits += 1
+            if "none" not in kinds:
+                continue
+            q = _query_of(w, cv)
+            if q is False:
+                continue
+            # a status code the gateway's protocol does not define (every
+            # defined code was compared and ruled out on this path) is not
+            # one of the bus outcomes C16 speaks about
+            if codes_all:
+                ruled = set()
+                for f in w:
+                    if f[0] == "cond" and f[2] is False and " == " in f[1]:
+                        try:
+                            t_ = ast.parse(f[1], mode="eval").body
+                        except SyntaxError:
+                            continue
+                        r = _codes_of(folder, owner, t_, unparse(t_.left)) \
+                            if isinstance(t_, ast.Compare) else None
+                        if r and not isinstance(r, tuple):
+                            ruled |= set(r)
+                if ruled >= codes_all:
+                    continue
+            path = W.trace(cfg.exit, w)
+            tests = [(n.lineno, unparse(n.ast, 50)) for n in path
+                     if n.kind == "test"][-4:]
+            run.ob("R-NONE-IFF-NOANSWER", Q + "#none-exit", False,
+                   "%s ends with None (`%s`) on a path where %s %s; a "
+                   "caller waiting for the answer of a query gets None "
+                   "instead of %s.response(...); last tests on the path: %s"
+                   % (Q, text, cv,
+                      "expects an answer" if q else
+                      "was not tested for expecting an answer", cv, tests),
+                   where(mod, path[-2] if len(path) > 1 else fn),
+                   sample={"rule": "R-NONE-IFF-NOANSWER", "function": Q})
+        run.ob("R-NONE-IFF-NOANSWER", Q, True, "", where(mod, fn),
+               sample={"rule": "R-NONE-IFF-NOANSWER", "function": Q,
+                       "exit worlds": len(ws)})
+    run.floor("send-path exit worlds examined", n_exits, 12)
+
+
+def _check_atx_drain(run, repo, world):
+    """ATX hat: after a line that reports a collision ('X' / 'Z') the driver
+    reads until the line buffer is empty before it looks at another line or
+    returns; what is left there is the next command's first 'answer'."""
+    run.rule("R-ATX-DRAIN", "a collision line is followed by a complete "
+             "drain of the serial line buffer before the next read / return")
+    from ..cfg import forward_worlds, explicit_raise_only
+    from ..seq import cond_edge_transfer, kill_conds_on_assign, assigned_names
+    owner, fn = _fn(world, ATX + ".SyncDaliHatDriver", "send")
+    mod = repo.mod(ATX)
+    Q = ATX + ".SyncDaliHatDriver.send"
+    cfg = CFG(fn, may_raise=explicit_raise_only, name=Q)
+    # locals holding a line read from the device
+    rl = set()
+    for n in _walk_no_nested(fn):
+        if isinstance(n, ast.Assign) and isinstance(
+                n.value, ast.Call) and isinstance(
+                    n.value.func, ast.Attribute) and \
+                n.value.func.attr == "read_line":
+            rl |= {t.id for t in n.targets if isinstance(t, ast.Name)}
+    # drain loops: `while v != "": v = read_line()` - the exit edge is the
+    # moment the buffer is known to be empty
+    drain_tests = {}
+    for n in cfg.reachable:
+        if n.kind != "test" or not isinstance(
+                n.info.get("owner"), ast.While):
+            continue
+        loop = n.info["owner"]
+        t = n.ast
+        v = None
+        if isinstance(t, ast.Compare) and len(t.ops) == 1 and isinstance(
+                t.left, ast.Name) and isinstance(
+                    t.comparators[0], ast.Constant) and \
+                t.comparators[0].value == "":
+            v = (t.left.id, "F" if isinstance(t.ops[0], ast.NotEq) else
+                 "T" if isinstance(t.ops[0], ast.Eq) else None)
+        elif isinstance(t, ast.Name):
+            v = (t.id, "F")
+        if v is None or v[1] is None or v[0] not in rl:
+            continue
+        reads = any(isinstance(x, ast.Assign) and any(
+            isinstance(tt, ast.Name) and tt.id == v[0] for tt in x.targets)
+            and isinstance(x.value, ast.Call) and isinstance(
+                x.value.func, ast.Attribute) and
+            x.value.func.attr == "read_line"
+            for b in loop.body for x in ast.walk(b))
+        if reads:
+            drain_tests[n.id] = v
+    if not drain_tests:
+        raise AnalysisError("%s: no drain loop over read_line() found" % Q)
+    main = rl - {v[0] for v in drain_tests.values()}
+    if not main:
+        raise AnalysisError("%s: no answer line local found" % Q)
+
+    def collision(w):
+        for f in w:
+            if f[0] != "cond" or f[2] is not True:
+                continue
+            if not any((m + "[0]") in f[1] or (m + ".startswith") in f[1]
+                       for m in main):
+                continue
+            if " == " in f[1] or " in " in f[1] or "startswith" in f[1]:
+                if "'X'" in f[1] or "'Z'" in f[1]:
+                    return f[1]
+        return None
+
+    def transfer(node, w):
+        w2 = kill_conds_on_assign(node, w)
+        if node.kind == "stmt" and node.ast is not None and \
+                assigned_names(node.ast) & main:
+            w2 = frozenset(f for f in w2 if f[0] != "drained")
+        return w2
+    cet = cond_edge_transfer()
+
+    def edge(src, label, dst, w):
+        w = cet(src, label, dst, w)
+        if w is None:
+            return None
+        if src.id in drain_tests and label == drain_tests[src.id][1]:
+            w = w | {("drained",)}
+        return w
+    W = forward_worlds(cfg, transfer, edge, max_worlds=20000)
+    n_sites = 0
+    seen_collision = False
+    for n in list(cfg.reachable):
+        leaves = n is cfg.exit or (
+            n.kind == "stmt" and n.ast is not None and
+            assigned_names(n.ast) & main)
+        if not leaves:
+            continue
+        n_sites += 1
+        for w in W.at(n):
+            c = collision(w)
+            if c is None:
+                continue
+            seen_collision = True
+            if ("drained",) in w:
+                continue
+            path = W.trace(n, w)
+            run.ob("R-ATX-DRAIN", Q + "#collision-drained", False,
+                   "after a collision line (`%s`) the path %s without "
+                   "having read the line buffer empty: the rest of the "
+                   "garbled exchange is read as the answer to the next "
+                   "command" % (c, "returns" if n is cfg.exit else
+                                "goes on to `%s`" % unparse(n.ast, 40)),
+                   where(mod, path[-2] if len(path) > 1 else fn),
+                   sample={"rule": "R-ATX-DRAIN", "function": Q})
+    if not seen_collision:
+        raise AnalysisError("%s: no path on which the answer line is "
+                            "recognised as a collision ('X' / 'Z')" % Q)
+    run.ob("R-ATX-DRAIN", Q, True, "", where(mod, fn),
+           sample={"rule": "R-ATX-DRAIN", "function": Q,
+                   "drain loops": len(drain_tests), "sites": n_sites})
